@@ -140,7 +140,23 @@ void cmb_event_queue_terminate(void)
  */
 void cmb_event_queue_clear(void)
 {
+    cmb_assert_release(event_queue != NULL);
+
+    /*
+     * Heap slot 0 holds the currently executing (most recently dequeued) event.
+     * Clearing the queue from inside an event action, the documented way to end
+     * a simulation run, must not make cmb_event_current() forget it.
+     */
+    struct cmi_heap_tag current = { 0 };
+    if (event_queue->heap != NULL) {
+        current = event_queue->heap[0];
+    }
+
     cmi_hashheap_clear(event_queue);
+
+    if (event_queue->heap != NULL) {
+        event_queue->heap[0] = current;
+    }
 }
 
 /*
